@@ -87,6 +87,11 @@ Bases ==
   @@ "http://api.example/api/0.6"           :> [host |-> "api.example",           prefix |-> "/api/0.6"]
   @@ "http://h2.example:8080/osm/api/0.6"   :> [host |-> "h2.example:8080",       prefix |-> "/osm/api/0.6"]
   @@ "http://dev.example/x/y/z"             :> [host |-> "dev.example",           prefix |-> "/x/y/z"]
+     \* path prefixes that contain percent-escapes (an escaped slash, a space, a literal percent sign): the request
+     \* path is the configured prefix VERBATIM followed by the documented path - nothing in the base is re-interpreted
+  @@ "http://m1.example/mirror%2Feu/api/0.6"  :> [host |-> "m1.example",          prefix |-> "/mirror%2Feu/api/0.6"]
+  @@ "http://m2.example/osm%20mirror/api/0.6" :> [host |-> "m2.example",          prefix |-> "/osm%20mirror/api/0.6"]
+  @@ "http://m3.example:81/cache/100%25/api/0.6" :> [host |-> "m3.example:81",    prefix |-> "/cache/100%25/api/0.6"]
 
 \* Options.  [k |-> kind, v |-> string value, n |-> integer value]
 \*   at     : v = instant in UTC as it must appear in the query (osm.fyi extension documented by the package:
@@ -289,7 +294,7 @@ NotesOpts == {<< >>, <<Opt("limit", "", 1)>>, <<Opt("closed", "", -1)>>, <<Opt("
                                  <<Opt("limit", "", 3), Opt("limit", "", 4)>>, <<Opt("limit", "", -1)>>} ELSE {})
 OptSeqs(ep) == CASE EP[ep].opt = "feature" -> FeatureOpts [] EP[ep].opt = "notes" -> NotesOpts [] OTHER -> {<< >>}
 
-BaseSet == IF Wide THEN DOMAIN Bases ELSE {"", "http://api.example/api/0.6", "http://h2.example:8080/osm/api/0.6"}
+BaseSet == IF Wide THEN DOMAIN Bases ELSE DOMAIN Bases \ {"http://dev.example/x/y/z"}
 \* via: "ds" = method on a Datasource with its own client, "dsnil" = Datasource without a client (falls back to the
 \* default client), "pkg" = package-level function (delegates to DefaultDatasource)
 Vias == {"ds", "dsnil", "pkg"}
@@ -351,11 +356,11 @@ Body(ep, shape, d) == d @@ BodyBase(ep, shape)
 \* The Model does not look at `via` (how the caller reaches the Datasource), so the design-level run fixes it.
 \* Narrow (quick) run: a star-shaped slice - at most one of {options, base URL, limiter} away from its default -
 \* and a slice of the environment.  Wide run: the star for every base URL plus the full product of arguments x
-\* options x limiter for two of the four base URLs (the Model's treatment of the base is independent of the rest).
+\* options x limiter for two of the seven base URLs (the Model's treatment of the base is independent of the rest).
 Star(x)    == \/ (x.base = "" /\ x.lim = "none")
               \/ (x.opts = << >> /\ x.lim = "none")
               \/ (x.opts = << >> /\ x.base = "")
-MCCalls    == IF Wide THEN {x \in CallsVia({"ds"}, {"bg"}) : Star(x) \/ x.base \in {"", "http://h2.example:8080/osm/api/0.6"}}
+MCCalls    == IF Wide THEN {x \in CallsVia({"ds"}, {"bg"}) : Star(x) \/ x.base \in {"", "http://m1.example/mirror%2Feu/api/0.6"}}
                       ELSE {x \in CallsVia({"ds"}, {"bg"}) : Star(x)}
 \* Environment of the design-level run.  The Model looks at the document only when the status is 200, so other
 \* statuses are paired with two documents (with and without elements) instead of all of them.
